@@ -116,17 +116,24 @@ def scenario(prog, nops, stats, mode, rich=False):
     for c in cids:
         it.solver.add(z3.Or(c == z3.StringVal(""), c == z3.StringVal("c1"), c == z3.StringVal("c2")))
 
-    def mk_instance(i, port, t):
+    def mk_instance(i, port, t, local_owner=False):
         if mode == "time":
             # heartbeats are re-registrations by the same client with the same flags (flags of step 0)
             i = 0
-        # from_cluster: 0 = this node, 2 = synced from node 2
+        # from_cluster: 0 = this node, 2 = synced from node 2. Once the service is in this node's range (after a take-over) every non-gRPC
+        # update reaches Service::update_instance with from_cluster = 0: NamingActor::update_instance clears it for in-range services
+        fc = z3.If(sy.bool(i, "from_other_node"), z3.BitVecVal(2, 64), z3.BitVecVal(0, 64)) if (rich or mode == "time") else 0
+        if local_owner and mode == "time":
+            fc = z3.If(sy.bool(i, "from_grpc"), fc, z3.BitVecVal(0, 64))
+        return _mk(i, port, t, fc)
+
+    def _mk(i, port, t, fc):
         return Struct("Instance", {
             "id": "1.1.1.1#%d" % port, "ip": "1.1.1.1", "port": port, "weight": float(1 + i % 2),
             "enabled": sy.bool(i, "enabled"), "healthy": sy.bool(i, "healthy") if (mode == "book" or t == 0) else True, "ephemeral": sy.bool(i, "ephemeral"), "cluster_name": "DEFAULT",
             "service_name": "svc", "group_name": "g", "group_service": "g@@svc", "metadata": {}, "last_modified_millis": t, "register_time": t,
             "namespace_id": "", "app_name": "", "from_grpc": sy.bool(i, "from_grpc") if (rich or mode == "time") else False,
-            "from_cluster": z3.If(sy.bool(i, "from_other_node"), z3.BitVecVal(2, 64), z3.BitVecVal(0, 64)) if (rich or mode == "time") else 0,
+            "from_cluster": fc,
             "client_id": cids[i],
         })
 
@@ -167,9 +174,10 @@ def scenario(prog, nops, stats, mode, rich=False):
         shadow = {}  # port -> last registered instance (reference registry)
         last_beat = {}
         overdue = {}
+        taken_over = {}
         clock = 0
         for i in range(nops):
-            ops = ["register", "remove", "mark_invalid", "mark_valid", "refresh"] if mode == "book" else ["register", "tick"]
+            ops = ["register", "remove", "mark_invalid", "mark_valid", "refresh"] if mode == "book" else ["register", "tick", "takeover"]
             op = pick(it, opv[i], ops) if not (mode == "time" and i == 0) else "register"
             port = (pick(it, portv[i], [1, 2]) if i > 0 else 1) if mode == "book" else 1
             key = skey(port)
@@ -182,7 +190,7 @@ def scenario(prog, nops, stats, mode, rich=False):
                     clock = t
                 else:
                     t = 10 * (i + 1)
-                ins = mk_instance(i, port, t)
+                ins = mk_instance(i, port, t, local_owner=bool(taken_over))
                 # the update tag is only consulted for an address that is already registered
                 has_tag = (it.branch(sy.bool(i, "has_tag")) if key in svc["instances"] else False) if mode == "book" else False
                 tag = NONE
@@ -243,6 +251,15 @@ def scenario(prog, nops, stats, mode, rich=False):
                 rec.append({"op": "refresh"})
                 it.call_method("Service", "do_refresh_process_range", svc, [])
                 log.append(("refresh",))
+            elif op == "takeover":
+                # the service's key falls into this node's range after a cluster change (NamingActor::refresh_process_range): instances that
+                # were owned by another node are this node's responsibility from now on
+                rec.append({"op": "takeover"})
+                it.call_method("Service", "do_refresh_process_range", svc, [])
+                log.append(("takeover",))
+                for k_ in svc["instances"]:
+                    taken_over[k_] = True
+                cover("takeover of a service")
             elif op == "tick":
                 now_t = pick(it, timev[i], GRID)
                 if now_t < clock:
@@ -257,7 +274,10 @@ def scenario(prog, nops, stats, mode, rich=False):
                 log.append(("tick", now_t))
                 for k, (was_healthy, v) in before.items():
                     age = now_t - v["last_modified_millis"]
-                    supervised = z3.simplify(z3.And(rseval.to_bool(v["ephemeral"]), z3.Not(rseval.to_bool(v["from_grpc"])), rseval.to_bv(v["from_cluster"]) == 0))
+                    local = z3.BoolVal(True) if taken_over.get(k) else (rseval.to_bv(v["from_cluster"]) == 0)
+                    supervised = z3.simplify(z3.And(rseval.to_bool(v["ephemeral"]), z3.Not(rseval.to_bool(v["from_grpc"])), local))
+                    if taken_over.get(k) and not z3.is_true(z3.simplify(rseval.to_bv(v["from_cluster"]) == 0)):
+                        cover("tick over an instance taken over from another node")
                     nowv = svc["instances"].get(k)
                     sup = supervised if isinstance(supervised, bool) else (True if z3.is_true(supervised) else False if z3.is_false(supervised) else it.branch(supervised))
                     if not sup:
@@ -405,8 +425,9 @@ def run(tier, seed, which="C11"):
                       ["new registration", "foreign removal refused"]))
     if which == "C13":
         plans.append(("s13_expiry", "time", 4 if tier == "quick" else 5,
-                      "every history of %d steps over {register/heartbeat at t, time_check at t} with t on the grid " + str(GRID) + ", health time-out %d, instance time-out %d; instance flags symbolic" % (H_TIMEOUT, O_TIMEOUT),
-                      ["beating instance survives a tick", "silent instance marked unhealthy", "silent unhealthy instance removed"]))
+                      "every history of %d steps over {register/heartbeat at t, time_check at t, take-over of the service after a cluster change} with t on the grid " + str(GRID) + ", health time-out %d, instance time-out %d; instance flags symbolic" % (H_TIMEOUT, O_TIMEOUT),
+                      ["beating instance survives a tick", "silent instance marked unhealthy", "silent unhealthy instance removed", "takeover of a service",
+                       "tick over an instance taken over from another node"]))
     for name, mode, n, bound, need in plans:
         stats = {"paths": 0, "queries": 0, "seed": seed, "n_validate": 12 if tier == "quick" else 40}
         ob = {"engine": "smt", "harness": name, "encodes": enc, "encodes_files": FILES, "bound": bound % n if "%d" in bound else bound, "queries": 0, "solver_s": 0.0, "distinct": 0}
